@@ -1,6 +1,8 @@
 (** C16 — property theorems only. *)
 From Coq Require Import List NArith ZArith Bool.
 From C33 Require Import C16.Proto C16.Model C16.Spec C16.Proofs.
+From C33 Require Import C16.ProtoUnknown C16.ModelUnknown C16.ModelEth C16.SpecExt
+                        C16.ProofsUnknown C16.ProofsUnknown2 C16.ProofsExt.
 
 (** The wire encoding determines the transaction (decoder round trip). *)
 Theorem C16_decode_encode : forall t, wf_txb t = true -> decode_tx (encode_tx t) = Some t.
@@ -81,3 +83,138 @@ Theorem C16_unsigned_fails :
   forall ds verify t h, signature t = None -> check_sign ds verify t h = false.
 Proof. exact unsigned_fails. Qed.
 Print Assumptions C16_unsigned_fails.
+
+(** * Extension: unknown protobuf fields of a decoded message *)
+Theorem C16_hash_ignores_unknown_fields :
+  forall (HT : Type) (H : list N -> HT) d,
+    tx_hash_d H d = tx_hash H (d_tx d) /\ full_hash_d H d = full_hash H (d_tx d).
+Proof. exact hash_ignores_unknown. Qed.
+Print Assumptions C16_hash_ignores_unknown_fields.
+
+Theorem C16_checksign_ignores_unknown_fields :
+  forall ds verify d h, check_sign_d ds verify d h = check_sign ds verify (d_tx d) h.
+Proof. exact checksign_ignores_unknown. Qed.
+Print Assumptions C16_checksign_ignores_unknown_fields.
+
+Theorem C16_clone_drops_unknown_fields :
+  forall (HT : Type) (H : list N -> HT) d,
+    encode_d (clone_d d) = encode_tx (d_tx d) /\
+    d_unk (clone_tx_d d) = nil /\ d_sunk (clone_tx_d d) = d_sunk d /\
+    tx_hash_d H (clone_d d) = tx_hash_d H d /\ full_hash_d H (clone_d d) = full_hash_d H d /\
+    tx_hash_d H (clone_tx_d d) = tx_hash_d H d /\ full_hash_d H (clone_tx_d d) = full_hash_d H d.
+Proof. exact clone_drops_unknown. Qed.
+Print Assumptions C16_clone_drops_unknown_fields.
+
+Theorem C16_clone_same_encoding_iff :
+  forall d, encode_d (clone_d d) = encode_d d <->
+            (d_unk d = nil /\ (signature (d_tx d) = None \/ d_sunk d = nil)).
+Proof. exact clone_same_encoding_iff. Qed.
+Print Assumptions C16_clone_same_encoding_iff.
+
+Theorem C16_hash_binds_message_refuted : ~ C16_hash_binds_message_full.
+Proof. exact hash_binds_message_refuted. Qed.
+Print Assumptions C16_hash_binds_message_refuted.
+
+Theorem C16_hash_binds_message_partial :
+  forall (HT : Type) (H : list N -> HT), (forall a b, H a = H b -> a = b) ->
+  forall d1 d2, wf_txb (d_tx d1) = true -> wf_txb (d_tx d2) = true ->
+    (full_hash_d H d1 = full_hash_d H d2 -> d_tx d1 = d_tx d2) /\
+    (full_hash_d H d1 = full_hash_d H d2 -> has_unknown d1 = false -> has_unknown d2 = false -> d1 = d2) /\
+    (tx_hash_d H d1 = tx_hash_d H d2 ->
+       execer (d_tx d1) = execer (d_tx d2) /\ payload (d_tx d1) = payload (d_tx d2) /\
+       fee (d_tx d1) = fee (d_tx d2) /\ expire (d_tx d1) = expire (d_tx d2) /\
+       nonce (d_tx d1) = nonce (d_tx d2) /\ to_ (d_tx d1) = to_ (d_tx d2) /\
+       groupCount (d_tx d1) = groupCount (d_tx d2) /\ next (d_tx d1) = next (d_tx d2) /\
+       chainID (d_tx d1) = chainID (d_tx d2)).
+Proof. exact hash_binds_message_partial. Qed.
+Print Assumptions C16_hash_binds_message_partial.
+
+Theorem C16_sign_then_verify_message_refuted : ~ C16_sign_then_verify_message_full.
+Proof. exact sign_then_verify_message_refuted. Qed.
+Print Assumptions C16_sign_then_verify_message_refuted.
+
+Theorem C16_sign_then_verify_message_partial :
+  forall ds verify mall issued m ty pub sg h d,
+    has_tx_unknown m = false ->
+    ideal_scheme verify mall issued ->
+    load ds (crypto_id ty) h = Some d ->
+    issued (d_id d) pub (sign_msg_d m) sg ->
+    check_sign_d ds verify (sign_d ty pub sg m) h = true.
+Proof. exact sign_then_verify_message_partial. Qed.
+Print Assumptions C16_sign_then_verify_message_partial.
+
+Theorem C16_sign_then_verify_message_exact :
+  forall ds verify mall issued m ty pub sg h,
+    ideal_scheme verify mall issued ->
+    only_issued issued (crypto_id ty) pub (sign_msg_d m) sg ->
+    check_sign_d ds verify (sign_d ty pub sg m) h = true ->
+    d_unk m = nil.
+Proof. exact sign_then_verify_message_exact. Qed.
+Print Assumptions C16_sign_then_verify_message_exact.
+
+(** * Extension: Signature.ty and the sender *)
+Theorem C16_ty_only_selects_driver :
+  forall ds verify t s ty' h,
+    signature t = Some s -> crypto_id ty' = crypto_id (s_ty s) ->
+    check_sign ds verify (set_ty ty' t) h = check_sign ds verify t h /\
+    hash_pre (set_ty ty' t) = hash_pre t /\ signed_bytes (set_ty ty' t) = signed_bytes t.
+Proof. exact ty_only_selects_driver. Qed.
+Print Assumptions C16_ty_only_selects_driver.
+
+Theorem C16_sender_bound_refuted : ~ C16_sender_bound_full.
+Proof. exact sender_bound_refuted. Qed.
+Print Assumptions C16_sender_bound_refuted.
+
+Theorem C16_sender_bound_partial :
+  forall ds verify mall issued t ty pub sg t' s' h,
+    Z.eqb (addr_id (s_ty s')) (addr_id ty) = true ->
+    ideal_scheme verify mall issued ->
+    only_issued issued (crypto_id ty) pub (sign_msg t) sg ->
+    wf_txb t = true -> wf_txb t' = true ->
+    signature t' = Some s' -> crypto_id (s_ty s') = crypto_id ty ->
+    check_sign ds verify t' h = true ->
+    sender_of t' = sender_of (sign_tx ty pub sg t).
+Proof. exact sender_bound_partial. Qed.
+Print Assumptions C16_sender_bound_partial.
+
+(** * Extension: the secp256k1eth driver in note mode *)
+Theorem C16_eth_same_action_same_verdict :
+  forall cfg xaddr parse inner other ds t t' s h,
+    signature t = Some s -> crypto_id (s_ty s) = eth_id ->
+    decodes_plainb t = true -> decodes_plainb t' = true ->
+    execer t' = execer t -> payload t' = payload t -> nonce t' = nonce t ->
+    signature t' = signature t ->
+    note_mode (action_of (xaddr (execer t)) (execer t) (payload t) (nonce t)) = true ->
+    check_sign ds (ethv cfg xaddr parse inner other) t' h = check_sign ds (ethv cfg xaddr parse inner other) t h.
+Proof. exact eth_same_action_same_verdict. Qed.
+Print Assumptions C16_eth_same_action_same_verdict.
+
+Theorem C16_eth_unbound_outer_fields :
+  forall cfg xaddr parse inner other ds t s h fee' expire' to' gc' hd' nx' cid',
+    signature t = Some s -> crypto_id (s_ty s) = eth_id ->
+    decodes_plainb t = true ->
+    decodes_plainb (with_outer t fee' expire' to' gc' hd' nx' cid') = true ->
+    note_mode (action_of (xaddr (execer t)) (execer t) (payload t) (nonce t)) = true ->
+    check_sign ds (ethv cfg xaddr parse inner other) (with_outer t fee' expire' to' gc' hd' nx' cid') h =
+    check_sign ds (ethv cfg xaddr parse inner other) t h.
+Proof. exact eth_unbound_outer_fields. Qed.
+Print Assumptions C16_eth_unbound_outer_fields.
+
+Theorem C16_eth_accepted_binds :
+  forall cfg xaddr parse inner other ds t' s' h,
+    signature t' = Some s' -> crypto_id (s_ty s') = eth_id ->
+    decodes_plainb t' = true ->
+    check_sign ds (ethv cfg xaddr parse inner other) t' h = true ->
+    forall a, action_of (xaddr (execer t')) (execer t') (payload t') (nonce t') = Some a ->
+    a_note a <> nil ->
+    exists e, parse (a_note a) = Some e /\
+              inner (HEth (e_sighash e)) (s_pub s') (s_sig s') = true /\
+              e_chain e = c_chain cfg /\ nonce t' = e_nonce e /\
+              eth_amount cfg (e_value e) = a_amount a /\ e_data e = a_code a /\
+              (forall to, e_to e = Some to -> eth_from_hex (a_to a) = to).
+Proof. exact eth_accepted_binds. Qed.
+Print Assumptions C16_eth_accepted_binds.
+
+Theorem C16_eth_altered_fails_refuted : ~ C16_eth_altered_fails_full.
+Proof. exact eth_altered_fails_refuted. Qed.
+Print Assumptions C16_eth_altered_fails_refuted.
